@@ -148,6 +148,17 @@ static std::string ResultVsParents(World& w, PictID p, json& info) {
   }
   return "";
 }
+static std::vector<std::string> OwnAdditions(World& w, PictID p);
+static std::string RenameAliases(const std::string& text, const std::map<std::string, std::string>& map) {      // whole identifiers (letter + digits)
+  std::string out; size_t i = 0;
+  while (i < text.size()) {
+    if (std::isupper(static_cast<unsigned char>(text[i])) && i + 1 < text.size() && std::isdigit(static_cast<unsigned char>(text[i + 1]))) {
+      size_t j = i + 1; while (j < text.size() && std::isdigit(static_cast<unsigned char>(text[j]))) ++j;
+      const auto name = text.substr(i, j - i); const auto it = map.find(name); out += it == map.end() ? name : it->second; i = j;
+    } else out += text[i++];
+  }
+  return out;
+}
 static void CheckExecution(World& w, PictID p, const std::vector<std::string>& ownBefore, const json& wit, size_t step, vh::Report& r) {
   ++r.checks;
   json info = { {"step", step}, {"pid", p} };
@@ -160,9 +171,16 @@ static void CheckExecution(World& w, PictID p, const std::vector<std::string>& o
   auto* sp = w.Src(p);
   size_t own = 0; for (const auto u : sp->schema.List()) if (!sp->schema.Mods().IsTracking(u)) ++own;
   if (own != ownBefore.size()) { info["before"] = ownBefore; r.Violation("C19", "the user's additions to the previous result were not carried over", wit, info); }
+  else if (const auto now = OwnAdditions(w, p); now != ownBefore) { info["before"] = ownBefore; info["after"] = now; r.Violation("C19", "the user's additions to the previous result were carried over with other definitions", wit, info); }
 }
-static std::vector<std::string> OwnAdditions(World& w, PictID p) {     // untracked constituents of the stored result = what the user added
-  std::vector<std::string> v; if (auto* s = w.Data(p); s != nullptr) for (const auto u : s->schema.List()) if (!s->schema.Mods().IsTracking(u)) v.push_back(s->schema.GetRS(u).definition);
+// untracked constituents of the stored result = what the user added; a mention of another addition is replaced by that addition's
+// own definition, so that the list does not depend on the alias numbering of the result
+static std::vector<std::string> OwnAdditions(World& w, PictID p) {
+  std::vector<std::string> v; auto* s = w.Data(p); if (s == nullptr) return v;
+  std::map<std::string, std::string> own;
+  for (const auto u : s->schema.List()) if (!s->schema.Mods().IsTracking(u)) own[s->schema.GetRS(u).alias] = "<" + s->schema.GetRS(u).definition + ">";
+  for (const auto u : s->schema.List()) if (!s->schema.Mods().IsTracking(u)) v.push_back(RenameAliases(s->schema.GetRS(u).definition, own));
+  std::sort(v.begin(), v.end());
   return v;
 }
 static void ExecuteChecked(World& w, PictID p, bool all, const json& wit, size_t step, vh::Report& r) {
@@ -197,6 +215,10 @@ static void Apply(World& w, const json& c, const json& wit, size_t step, vh::Rep
     else if (k == "removeBase") { if (!s->schema.Erase(bases.back())) r.Drift("C19", "removeBase refused", wit, { {"step", step} }); }
     else if (k == "text") (void)s->schema.SetTermFor(bases.front(), "t" + std::to_string(step) + s->schema.GetText(bases.front()).term.Text().Raw());
     else if (k == "userTerm") s->schema.Emplace(CstType::term, UserTermFor(p));
+    else if (k == "userPair") {   // the first addition (in list order) mentions the second
+      const auto u1 = s->schema.Emplace(CstType::term, "ℬ(Z)"); const auto u2 = s->schema.Emplace(CstType::term, UserTermFor(p));
+      (void)s->schema.SetExpressionFor(u1, s->schema.GetRS(u2).alias);
+    }
   }
   else if (o == "Reload") {
     // save the document, destroy the schema object (which closes its sources), load the document with the items rotated,
@@ -228,6 +250,7 @@ static void Apply(World& w, const json& c, const json& wit, size_t step, vh::Rep
   // among the open sources, and the model just notes the change as saved)
   else if (o == "Save") { if (auto* s = w.Src(p); s != nullptr) s->TriggerSave(); }
   else if (o == "Close") { if (auto* s = w.Src(p); s != nullptr) w.Mgr().Close(*s); }
+  else if (o == "Drop") { if (auto* s = w.Src(p); s != nullptr) s->TriggerClose(); }      // closed without announcing the pending change
   else if (o == "Open") { if (w.Src(p) == nullptr) if (auto* s = w.Data(p); s != nullptr) s->TriggerOpen(); }
   else if (o == "InitFor") {
     if (!ossRef.Contains(p) || ossRef.Ops()(p) == nullptr) return;
@@ -338,13 +361,13 @@ static int Record(const vh::Args& args) {
           if (!isOp && nb >= 2) can.push_back({ p, "removeBase" });
           if (!isOp && nb >= 2 && labelled) can.push_back({ p, "removeFirst" });
           bool hasOwn = false; for (const auto u : s->schema.List()) if (!s->schema.Mods().IsTracking(u) && isOp) hasOwn = true;
-          if (isOp && nb >= 1 && !hasOwn) can.push_back({ p, "userTerm" });
+          if (isOp && nb >= 1 && !hasOwn) can.push_back({ p, (g() % 2) ? "userTerm" : "userPair" });
         }
         if (can.empty()) { --st; continue; }
         const auto c = can[g() % can.size()]; ev = ev0("Edit"); ev["p"] = c.first; ev["kind"] = c.second;
       }
       else if (wgt < 61) { std::vector<PictID> linked; for (const auto p : all) if (w.Data(p) != nullptr) linked.push_back(p); if (linked.empty()) { --st; continue; } ev = ev0("Save"); ev["p"] = pick(linked); }
-      else if (wgt < 63) { std::vector<PictID> linked; for (const auto p : all) if (w.Src(p) != nullptr) linked.push_back(p); if (linked.empty()) { --st; continue; } ev = ev0("Close"); ev["p"] = pick(linked); }
+      else if (wgt < 63) { std::vector<PictID> linked; for (const auto p : all) if (w.Src(p) != nullptr) linked.push_back(p); if (linked.empty()) { --st; continue; } ev = ev0(g() % 2 ? "Close" : "Drop"); ev["p"] = pick(linked); }
       else if (wgt < 64) { std::vector<PictID> closed; for (const auto p : all) if (w.Src(p) == nullptr && w.Data(p) != nullptr) closed.push_back(p); if (closed.empty()) { --st; continue; } ev = ev0("Open"); ev["p"] = pick(closed); }
       else if (wgt < 76) {
         if (opsL.empty()) { --st; continue; }
